@@ -558,11 +558,16 @@ impl Gen {
                 let k = (*rng.pick(&[127usize, 128, 129, 160, 255, 256, 257, 258])).min(d.attrs.len());
                 let mut idx: Vec<usize> = (0..d.attrs.len()).collect();
                 rng.shuffle(&mut idx);
-                let mut p = Pol::Term(d.name.clone(), d.attrs[idx[0]].name.clone());
-                for i in &idx[1..k] {
-                    p = Pol::Or(Box::new(p), Box::new(Pol::Term(d.name.clone(), d.attrs[*i].name.clone())));
+                // balanced tree (a 257-deep chain exceeds the JSON recursion limit of replay files)
+                fn build(d: &MDim, idx: &[usize]) -> Pol {
+                    if idx.len() == 1 {
+                        Pol::Term(d.name.clone(), d.attrs[idx[0]].name.clone())
+                    } else {
+                        let (l, r) = idx.split_at(idx.len() / 2);
+                        Pol::Or(Box::new(build(d, l)), Box::new(build(d, r)))
+                    }
                 }
-                return PolArg::new(p, 0);
+                return PolArg::new(build(d, &idx[..k]), 0);
             }
         }
         // Bias towards rights some user holds or nearly holds.
